@@ -97,3 +97,32 @@ Theorem C13_load_total : forall h, wf_heap h -> forall root, root < length h ->
     r_root r = root.
 Proof. exact load_total. Qed.
 Print Assumptions C13_load_total.
+
+(* "exactly one object per distinct configuration" whatever the objects look like.  The model names
+   the object of configuration n by n; underneath is the ObjectStore consulted by FromPython.stub
+   with `is None`: a configuration that has an object keeps it - for every type of objects, hence
+   for objects that are falsy (empty containers, __bool__) or equal by content - both when it is
+   asked again (pre-task gathering, a later instance() on the same store) and after any number of
+   requests for other configurations                                                          *)
+Theorem C13_store_keeps_first_object : forall (obj : Type),
+  (forall (f1 f2 : obj) st n,
+     stub f2 (fst (stub f1 st n)) n = (fst (stub f1 st n), snd (stub f1 st n))) /\
+  (forall (reqs : list (nat * obj)) st n o,
+     retrieve st n = Some o -> retrieve (stubs st reqs) n = Some o).
+Proof. exact store_keeps_first_object. Qed.
+Print Assumptions C13_store_keeps_first_object.
+
+(* the variant deciding on the truth value of the cached object gives a second object *)
+Theorem C13_store_by_truth_refuted : exists (truthy : nat -> bool) f1 f2 st n,
+  snd (stub_by_truth truthy f2 (fst (stub_by_truth truthy f1 st n)) n)
+  <> snd (stub_by_truth truthy f1 st n).
+Proof. exact stub_by_truth_refuted. Qed.
+Print Assumptions C13_store_by_truth_refuted.
+
+(* the classes of the configurations are not an input: two graphs that differ by their classes
+   only give the same objects, wiring and call log, by instance() and by the parameter file   *)
+Theorem C13_class_blind : forall h h' constructed root,
+  map (recls (fun _ => 0)) h = map (recls (fun _ => 0)) h' ->
+  instantiate h constructed root = instantiate h' constructed root /\ load h root = load h' root.
+Proof. exact class_blind. Qed.
+Print Assumptions C13_class_blind.
